@@ -9,6 +9,10 @@ CONSTANTS
   MaxNow = 8
   MaxOps = 16
   SimKinds <- KindsAll
+  SyncHttpClientIds = FALSE
+  Record = TRUE
+  Defect_NoArmOnSync = FALSE
+  Defect_TakeoverKeepsOrigin = FALSE
   Defect_ClientSetBeforeOwner = FALSE
 INVARIANTS ExportBehaviour
 CHECK_DEADLOCK FALSE
